@@ -282,6 +282,12 @@ func registerHarnessAPI() {
 	ext[hname("vAllocBytes")] = func(in *Interp, fr *frame, args []value) value { return uint64(in.alloc) }
 	ext[hname("vSymbolic")] = func(in *Interp, fr *frame, args []value) value { return in.cfg.Concrete == nil }
 	ext[hname("vNow")] = func(in *Interp, fr *frame, args []value) value { return in.nowValue() }
+	// the library's random message ID: an arbitrary 16-bit value
+	ext[hname("id")] = func(in *Interp, fr *frame, args []value) value {
+		in.uniq++
+		in.stubs["dns.id (random message ID) = arbitrary value"]++
+		return in.freshVar(fmt.Sprintf("randid%d", in.uniq), 16)
+	}
 	ext[hname("vFixNow")] = func(in *Interp, fr *frame, args []value) value {
 		if _, ok := in.natives["now"]; ok {
 			panic(in.unsupported("vFixNow after the clock was read"))
